@@ -92,6 +92,10 @@ def check(ctx: Ctx) -> None:
     from ..dsf import auto_memo_check
     ctx.rule('C13.e', 'no auto-discovered lazily filled cache of the classes in the anchored modules can be stale at the exit of a public method (dependencies = what the fill expression reads, incl. mutating calls on held sub-objects)', floor=8)
     auto_memo_check(ctx, 'C13.e', [PL, AG])
+    from ..commit import check_family
+    check_family(ctx, 'C13.g', ['PathLossBase'], floor=8)
+    from ..idioms import check_input_immutability, public_api
+    check_input_immutability(ctx, 'C13.h', public_api(ctx.model, [PL, AG]), floor=20)
     _check_policy(ctx)
     _check_units(ctx)
     _check_inverse(ctx)
